@@ -68,6 +68,9 @@ func WriteSafe(f *dbc.File, hex bool) (text []byte, panicked string) {
 	return b.Bytes(), ""
 }
 
+// CpsLine: the code points of a text as a record field (count, then the code points).
+func CpsLine(text []byte) string { return cpsLine(Cps(text)) }
+
 func cpsLine(rs []rune) string {
 	var b strings.Builder
 	b.WriteString(strconv.Itoa(len(rs)))
